@@ -979,8 +979,46 @@ pub(crate) fn m_prefix_blank_lines() {
     }
 }
 
+/// Box-drawing picture of bordered (nested) tables: all lines equally wide, and every rule glyph
+/// agrees with the vertical bars directly above and below it.
+pub(crate) fn m_columns() {
+    let _which: u8 = kani::any();
+    fn up(c: char) -> bool { matches!(c, '\u{2502}' | '\u{2534}' | '\u{253c}') }
+    fn down(c: char) -> bool { matches!(c, '\u{2502}' | '\u{252c}' | '\u{253c}') }
+    fn rule(l: &[char]) -> bool { !l.is_empty() && l.iter().all(|c| matches!(c, '\u{2500}' | '\u{252c}' | '\u{2534}' | '\u{253c}')) }
+    let docs: [&str; 5] = [
+        "<table><tr><td>ab</td><td><table><tr><td>1</td><td>2</td></tr></table></td></tr><tr><td>cd</td><td>wxyz</td></tr></table>",
+        "<table><tr><td><table><tr><td>1</td><td>2</td></tr></table></td><td>ab</td></tr><tr><td>wxyz</td><td>cd</td></tr></table>",
+        "<table><tr><td>a</td><td>bb</td><td>ccc</td></tr><tr><td>dddd</td><td>e</td><td>ff</td></tr></table>",
+        "<table><tr><td>x</td><td><table><tr><td>1</td><td>2</td></tr><tr><td>3</td><td>4</td></tr></table></td><td>y<br>z<br>w<br>v<br>u</td></tr></table>",
+        "<table><tr><td>one two three</td><td>four</td></tr><tr><td>five</td><td>six seven eight nine</td></tr></table>",
+    ];
+    for html in docs.iter() {
+        for width in [20usize, 31, 50] {
+            let out = crate::config::plain().string_from_read(html.as_bytes(), width).expect("renders");
+            let lines: Vec<Vec<char>> = out.lines().map(|l| l.chars().collect()).collect();
+            assert!(!lines.is_empty(), "empty rendering of {:?}", html);
+            let w = lines[0].len();
+            for l in lines.iter() {
+                assert!(l.len() == w, "lines of different width at width {}:\n{}", width, out);
+            }
+            for r in 0..lines.len() {
+                if !rule(&lines[r]) {
+                    continue;
+                }
+                for x in 0..w {
+                    let above = r > 0 && down(lines[r - 1][x]);
+                    let below = r + 1 < lines.len() && up(lines[r + 1][x]);
+                    let g = lines[r][x];
+                    assert!((up(g), down(g)) == (above, below), "rule line {} col {}: glyph {:?} does not match the bars above/below at width {}:\n{}", r, x, g, width, out);
+                }
+            }
+        }
+    }
+}
+
 crate::verif_common::registry! {
-    m_prefix_blank_lines, m_shallow_empty, m_link_footnotes, m_strike_affix, m_frag_nested, m_dom_children, m_cell_unwind, m_routes_width, m_insert_child, m_ol_numbering, m_prefix_width, m_into_cells, m_table_col_width, m_table_alloc,
+    m_columns, m_prefix_blank_lines, m_shallow_empty, m_link_footnotes, m_strike_affix, m_frag_nested, m_dom_children, m_cell_unwind, m_routes_width, m_insert_child, m_ol_numbering, m_prefix_width, m_into_cells, m_table_col_width, m_table_alloc,
     r1_cascade_pairs, r1_cascade_triples, r2_specificity_order, r2_specificity_add,
     r3_ol_prefix_total, r4_ol_prefix_is_max,
     r9_tree_map_reduce_order, r12_config_plumbing, r12_width_zero,
